@@ -465,6 +465,142 @@ def constraint_stage(chk, M):
         chk.monitor_failure("constraints", {"cls": "TlTrack", "field": "tlid"}, f"TlTrack(tlid={tlid}) accepted", {"tlid": tlid})
 
 
+# ----------------------------------------------------------------------------
+# systematic malformed tagged models: class x (missing / ill-typed / extra) per field
+
+_U = "12345678-1234-5678-1234-567812345678"
+_A = {"cls": "Artist", "uri": "a:1", "name": "A", "sortname": "a", "musicbrainz_id": _U}
+_AL = {"cls": "Album", "uri": "al:1", "name": "LP", "artists": [_A], "num_tracks": 3, "num_discs": 1, "date": "2020-01-02",
+       "musicbrainz_id": _U}
+_T = {"cls": "Track", "uri": "t:1", "name": "T", "artists": [_A], "album": _AL, "composers": [_A], "performers": [_A], "genre": "g",
+      "track_no": 1, "disc_no": 1, "date": "1999", "length": 5, "bitrate": 128, "comment": "c", "musicbrainz_id": _U,
+      "last_modified": 7}
+FULL_SPECS = {
+    "Ref": {"cls": "Ref", "uri": "r:1", "name": "R", "type": "track"},
+    "Image": {"cls": "Image", "uri": "i:1", "width": 10, "height": 20},
+    "Artist": _A, "Album": _AL, "Track": _T,
+    "TlTrack": {"cls": "TlTrack", "tlid": 7, "track": _T},
+    "Playlist": {"cls": "Playlist", "uri": "p:1", "name": "P", "tracks": [_T], "last_modified": 9},
+    "SearchResult": {"cls": "SearchResult", "uri": "s:1", "tracks": [_T], "artists": [_A], "albums": [_AL]},
+}
+REQUIRED = {"Ref": {"uri", "type"}, "Image": {"uri"}, "TlTrack": {"tlid", "track"}}
+# values that certainly violate a field of the given kind (no lax coercion path)
+ILL = {"str": [5, []], "int": ["x", [], -1], "date": ["2020-1-1", 5], "uuid": ["zz", 5], "type": ["nope", 5],
+       "list": [5, None, [5]], "model": [5, []]}
+
+
+def malformed_variants(cls, tier, rng):
+    """-> [(json, defects)]; defects = sorted list of 'missing:<f>' (required only), 'ill:<f>', 'extra'."""
+    base = spec_json(FULL_SPECS[cls])
+    fields = [k for k in base if k != "__model__"]
+    req = REQUIRED.get(cls, set())
+    out = []
+
+    def make(states, extra):
+        j = dict(base)
+        defects = []
+        for f, st in states.items():
+            if st == "missing":
+                del j[f]
+                if f in req:
+                    defects.append("missing:" + f)
+            elif st != "ok":
+                kind = "int" if f == "length" else FIELD_KIND[f]
+                vals = [v for v in ILL[kind] if not (f == "length" and v == -1)]
+                j[f] = vals[st % len(vals)]
+                defects.append("ill:" + f)
+        if extra:
+            j[extra] = 1
+            defects.append("extra")
+        out.append((j, sorted(defects)))
+
+    import itertools
+
+    n = len(fields)
+    full = n <= 4 or (tier == "thorough" and n <= 7)
+    if full:
+        for combo in itertools.product(("ok", "missing", 0), repeat=n):
+            for extra in (None, "junk"):
+                make(dict(zip(fields, combo)), extra)
+        for f in fields:  # the other ill-typed values, one field at a time
+            for i in (1, 2):
+                make({f: i}, None)
+    else:
+        make({}, None)
+        make({}, "junk")
+        for f in fields:
+            for st in ("missing", 0, 1, 2):
+                make({f: st}, None)
+        pairs = [(a, b, sa, sb) for a, b in itertools.combinations(fields, 2) for sa in ("missing", 0) for sb in ("missing", 0)]
+        if tier != "thorough":
+            pairs = rng.sample(pairs, min(len(pairs), 60))
+        for a, b, sa, sb in pairs:
+            make({a: sa, b: sb}, None)
+        for _ in range(40 if tier != "thorough" else 400):
+            k = rng.randint(3, min(6, n))
+            make({f: rng.choice(["missing", 0, 1]) for f in rng.sample(fields, k)}, rng.choice([None, None, "junk", "model"]))
+    return out
+
+
+def malformed_stage(chk, M, jsonrpc):
+    """Every model class x (missing / ill-typed / extra) fields, as a tagged JSON-RPC argument in
+    four positions.  Monitor: an invalid tagged model never reaches the callee - the request is
+    rejected - and a valid one arrives as an instance of its class."""
+    rng = vlib.Rng(chk.seed, "C08-malformed")
+    received = []
+
+    def echo(*args, **kwargs):
+        received.append((args, kwargs))
+        return True
+
+    w = jsonrpc.Wrapper(objects={"echo": echo})
+    good = spec_json(FULL_SPECS["Artist"])
+    rows, vrows = [], []
+    for cls in CLASSES:
+        for j, defects in malformed_variants(cls, chk.tier, rng):
+            # TlTrack's hand-written __init__ swallows unknown keys: no claim for "extra" alone there
+            claim = None if (cls == "TlTrack" and defects == ["extra"]) else ("invalid" if defects else "valid")
+            dkind = "+".join(sorted({d.split(":")[0] for d in defects})) or "none"
+            chk.dist(f"malformed:{cls}:{dkind}")
+            chk.count(1, nontrivial_key="malformed:" + cls + sort_key(j) if defects else None)
+            out = validate_outcome(M, cls, j)
+            vrows.append(({"cls": cls, "json": j, "mutation": "malformed:" + dkind, "impl": out[0]},
+                          f"({g_str(cls)}, {g_json(j)}, {g_outcome(out)})"))
+            if claim == "invalid" and out[0] == "ok":
+                chk.monitor_failure("constraints", {"cls": cls, "field": ",".join(defects)},
+                                    f"{cls}.model_validate accepted a value with {defects}", {"cls": cls, "json": j})
+            for position, params in (("positional", [j]), ("by_name", {"value": j}), ("in_list", [[good, j]]),
+                                     ("in_object", [{"a": {"b": j}, "uri": "x"}])):
+                received.clear()
+                case = {"cls": cls, "defects": defects, "position": position,
+                        "request": {"jsonrpc": "2.0", "id": 1, "method": "echo", "params": params}}
+                try:
+                    resp = json.loads(w.handle_json(json.dumps(case["request"]).encode()))
+                except Exception as exc:  # noqa: BLE001
+                    chk.monitor_failure("rpc_no_exception", {"wrap": "malformed", "cls": cls},
+                                        f"handle_json raised {type(exc).__name__}", case)
+                    continue
+                if claim == "invalid" and (received or "error" not in resp):
+                    chk.monitor_failure("invalid_model_rejected", {"cls": cls, "defect": dkind, "position": position},
+                                        f"a tagged {cls} with {defects} was not rejected: it reached the method", case)
+                if claim == "valid":
+                    got = None
+                    if received:
+                        a, k = received[0]
+                        got = {"positional": lambda: a[0], "by_name": lambda: k["value"], "in_list": lambda: a[0][1],
+                               "in_object": lambda: a[0]["a"]["b"]}[position]()
+                    if type(got).__name__ != cls:
+                        chk.monitor_failure("param_decode", {"shape": "tagged_not_model", "cls": cls},
+                                            f"a valid tagged {cls} reached the method as {type(got).__name__}", case)
+                if position == "positional":
+                    g_got = f"(Some {g_json(shape(M, received[0][0][0]))})" if received else "None"
+                    rows.append((case, f"({g_json(j)}, {g_got}, JNull)"))
+    eval_cases(chk, "malformed_decode", "json * option json * json", rows, ["decode_case_ok"],
+               ["decode j ~ whether / as what the method received the malformed tagged model"])
+    eval_cases(chk, "malformed_of_json", "str * json * option (option json)", vrows, ["of_json_case_ok"],
+               ["of_json_as cls j ~ model_validate(j)"])
+
+
 def shape(M, v):
     """What a method received, as JSON: models as {"$model": serialize()}."""
     if isinstance(v, M.BaseModel):
@@ -747,5 +883,6 @@ def run(chk):
     model_stage(chk, M, specs)
     constraint_stage(chk, M)
     rpc_stage(chk, M, jsonrpc, specs)
+    malformed_stage(chk, M, jsonrpc)
     event_stage(chk, M, specs)
     storage_stage(chk, M, specs)
